@@ -9,7 +9,7 @@ from fv import common, design, design_mc, design_trace, gen, rows
 from fv.report import Report
 
 
-def transform_frame(rng, df, n):
+def transform_frame(rng, df, n, force_junk=False):
     """A random permutation of the rows plus re-indexing, column reordering and unused columns."""
     perm = list(range(n))
     rng.shuffle(perm)
@@ -33,7 +33,7 @@ def transform_frame(rng, df, n):
         rng.shuffle(cols)
         df2 = df2[cols]
         ops.append("columns:shuffled")
-    if rng.random() < 0.5:
+    if force_junk or rng.random() < 0.5:
         df2["junk1"] = [rng.random() for _ in range(n)]
         df2["junk2"] = [rng.choice(["p", None, "q"]) for _ in range(n)]
         ops.append("columns:added-unused(with NA)")
@@ -51,7 +51,12 @@ def _event(args):
     if rng.random() < 0.2:
         text = rng.choice(["f", "o", "C(k)"]) + " ~" + text.split("~", 1)[1]
     ns = rows.namespace(w, rng)
-    if rng.random() < 0.3:
+    bare = rng.random() < 0.04
+    if bare:
+        # a formula that names no column of the frame at all: unused columns (with missing values) still do not matter
+        text = rng.choice(["1", "0 + I(UENV)"])
+        ns = dict(ns, UENV=np.arange(w.n, dtype=float))
+    if not bare and rng.random() < 0.3:
         # missing values in a used column (dropped by default): re-indexing and column operations must
         # still have no effect -- the rows are not permuted here, so both builds keep the same rows
         df0 = w.df.copy()
@@ -82,9 +87,11 @@ def _event(args):
         ev["la"], ev["lb"] = rows.label_ids(la, lb)
         return ev, info
     s1, d1 = design.build(text, w.df, extra_namespace=ns)
-    df2, perm, ops = transform_frame(rng, w.df, w.n)
+    df2, perm, ops = transform_frame(rng, w.df, w.n, force_junk=bare)
+    if bare:
+        perm = list(range(w.n))          # values taken from the caller do not move with the rows of the frame
     s2, d2 = design.build(text, df2, extra_namespace=ns)
-    ev = {"id": idx, "kind": "rows", "status": "ok", "a": [], "b": [], "map": [], "la": [], "lb": [], "tag": "frame_ops"}
+    ev = {"id": idx, "kind": "rows", "status": "ok", "a": [], "b": [], "map": [], "la": [], "lb": [], "tag": "frame_ops" + (":no_frame_column" if bare else "")}
     info = {"formula": text, "ops": ops, "perm": perm}
     if s1 != "ok" and s2 != "ok":
         return None, info  # the formula cannot be built on this data at all (other properties)
